@@ -341,4 +341,155 @@ theorem v1_writeItem (n : Str) (v : V) (c : Ctx) (hn : nameOk n) (hv : valueV1 v
   | .lst vs, _ => simp only [hc1, ↓reduceIte]; exact v1_error_value c1 hc1
   | .tbl es, _ => simp only [hc1, ↓reduceIte]; exact v1_error_value c1 hc1
 
+/-! ### items, packets, loops, containers -/
+
+theorem v1_same_version {c : Ctx} {o : Str} {c' : Ctx} (hv : c'.version = c.version) (ho : validate11 o = true) :
+    V1Ok c (.ok (o, c')) := by
+  intro hc
+  refine ⟨?_, (by intro e he; cases he)⟩
+  intro o' c'' he
+  simp only [Except.ok.injEq, Prod.mk.injEq] at he
+  rw [← he.1, ← he.2]
+  exact ⟨by unfold Ctx.isCif1 at hc ⊢; rw [hv]; exact hc, ho⟩
+
+
+def itemsV1 (p : List (Str × V)) : Prop := ∀ nv ∈ p, nameOk nv.1 ∧ valueV1 nv.2
+
+theorem v1_items : ∀ (p : List (Str × V)) (c : Ctx), itemsV1 p → V1Ok c (writeItems p c) := by
+  intro p
+  induction p with
+  | nil => intro c _; exact v1_ok (Same.refl c) rfl
+  | cons nv rest ih =>
+    intro c h
+    obtain ⟨n, v⟩ := nv
+    simp only [writeItems]
+    have h1 := h (n, v) List.mem_cons_self
+    apply v1_andThen (v1_writeItem n v c h1.1 h1.2)
+    intro c1; exact ih c1 (fun x hx => h x (List.mem_cons_of_mem _ hx))
+
+theorem v1_newline (c : Ctx) : V1Ok c (.ok (writeNewline c)) := by
+  unfold writeNewline
+  apply v1_same_version
+  · rfl
+  · decide
+
+theorem v1_packets : ∀ (ps : List (List (Str × V))) (c : Ctx), (∀ p ∈ ps, itemsV1 p) → V1Ok c (writePackets ps c) := by
+  intro ps
+  induction ps with
+  | nil => intro c _; exact v1_ok (Same.refl c) rfl
+  | cons p rest ih =>
+    intro c h
+    simp only [writePackets, writePacket]
+    apply v1_andThen
+    · apply v1_andThen (v1_items p c (h p List.mem_cons_self))
+      intro c1; exact v1_newline c1
+    · intro c1; exact ih c1 (fun x hx => h x (List.mem_cons_of_mem _ hx))
+
+theorem v1_headerNames : ∀ (ns : List Str) (c : Ctx), V1Ok c (writeHeaderNames ns c) := by
+  intro ns
+  induction ns with
+  | nil => intro c; exact v1_ok (Same.refl c) rfl
+  | cons n rest ih =>
+    intro c
+    simp only [writeHeaderNames]
+    by_cases hv : c.isCif1 = true ∧ validate11 n = false
+    · rw [if_pos hv]; exact v1_error_char c
+    · rw [if_neg hv]
+      intro hc
+      have hvn : validate11 n = true := by
+        cases hh : validate11 n
+        · exact absurd ⟨hc, hh⟩ hv
+        · rfl
+      apply v1_andThen (c := c) _ (fun c1 => ih c1) hc
+      apply v1_same_version
+      · rfl
+      · rw [validate11_append, validate11_append, hvn]
+        split <;> decide
+
+/-- a loop the CIF 1.1 writer can handle: it holds a packet, names printable, numbers non-empty CIF 1.1 text -/
+def loopV1 (l : WLoop) : Prop := l.packets ≠ [] ∧ ∀ p ∈ l.packets, itemsV1 p
+
+theorem v1_loop (l : WLoop) (c : Ctx) (h : loopV1 l) : V1Ok c (writeLoop l c) := by
+  unfold writeLoop
+  have hne : l.packets.isEmpty = false := by
+    cases hp : l.packets with
+    | nil => exact absurd hp h.1
+    | cons a b => rfl
+  apply v1_andThen
+  · split
+    · unfold writeNewline
+      apply v1_same_version
+      · rfl
+      · decide
+    · apply v1_andThen (c := c)
+      · apply v1_same_version
+        · rfl
+        · decide
+      · intro c1; exact v1_headerNames l.header c1
+  · intro c1
+    simp only [hne, Bool.false_eq_true, ↓reduceIte]
+    apply v1_andThen (v1_packets l.packets c1 h.2)
+    intro c2; exact v1_newline c2
+
+theorem v1_loops : ∀ (ls : List WLoop) (c : Ctx), (∀ l ∈ ls, loopV1 l) → V1Ok c (writeLoops ls c) := by
+  intro ls
+  induction ls with
+  | nil => intro c _; exact v1_ok (Same.refl c) rfl
+  | cons l rest ih =>
+    intro c h
+    simp only [writeLoops]
+    apply v1_andThen (v1_loop l c (h l List.mem_cons_self))
+    intro c1; exact ih c1 (fun x hx => h x (List.mem_cons_of_mem _ hx))
+
+mutual
+  def containerV1 : WContainer → Prop
+    | .mk _ frames loops => containersV1 frames ∧ ∀ l ∈ loops, loopV1 l
+  def containersV1 : List WContainer → Prop
+    | [] => True
+    | k :: rest => containerV1 k ∧ containersV1 rest
+end
+
+mutual
+  theorem v1_container (k : WContainer) (c : Ctx) (h : containerV1 k) : V1Ok c (writeContainer k c) := by
+    match k, h with
+    | .mk code frames loops, h =>
+      simp only [containerV1] at h
+      unfold writeContainer
+      by_cases hv : c.isCif1 = true ∧ validate11 code = false
+      · rw [if_pos hv]; exact v1_error_char c
+      · rw [if_neg hv]
+        intro hc
+        have hvc : validate11 code = true := by
+          cases hh : validate11 code
+          · exact absurd ⟨hc, hh⟩ hv
+          · rfl
+        apply v1_andThen (c := c) _ _ hc
+        · apply v1_same_version
+          · rfl
+          · rw [validate11_append, validate11_append, hvc]
+            split <;> decide
+        · intro c1
+          apply v1_andThen (v1_containers frames c1 h.1)
+          intro c2
+          apply v1_andThen (v1_loops loops c2 h.2)
+          intro c3
+          simp only []
+          split
+          · unfold writeNewline
+            apply v1_same_version
+            · rfl
+            · decide
+          · apply v1_same_version
+            · rfl
+            · decide
+  theorem v1_containers (ks : List WContainer) (c : Ctx) (h : containersV1 ks) : V1Ok c (writeContainers ks c) := by
+    match ks, h with
+    | [], _ => unfold writeContainers; exact v1_ok (Same.refl c) rfl
+    | k :: rest, h =>
+      simp only [containersV1] at h
+      unfold writeContainers
+      apply v1_andThen (v1_container k c h.1)
+      intro c1; exact v1_containers rest c1 h.2
+end
+
 end CifModel.Lemmas.WriterV1
